@@ -2,10 +2,10 @@ import Goyang.Lemmas.PositionsTypes
 import Goyang.Spec.PositionsWho
 /-
 Semantic half of C16, second reading: the layers plugged into `processAll` by
-`Goyang.Model.plugFull` keep the position discipline `PlugPositionsAt (NamesW reg)`, i.e. that of
+`Goyang.Model.plugFull` keep the position discipline `PlugPositionsAt (NamesWP APred.P reg)`, i.e. that of
 `Goyang.Lemmas.PositionsTypes.plugFull_positions` together with `Who` (which none of the classes
 of the type / typedef / identity layers is constrained by).  Same proofs as in PositionsTypes.lean,
-with `Good` / `GoodL` read over `NamesW reg`; the lemmas that do not mention them are reused.
+with `Good` / `GoodL` read over `NamesWP APred.P reg`; the lemmas that do not mention them are reused.
 -/
 set_option linter.unusedVariables false
 set_option linter.unusedSimpArgs false
@@ -23,25 +23,30 @@ def notTypeW : List String := PositionsTypes.notType ++ whoClasses
 /-- The classes constrained to something else than an `enum` / `bit` statement. -/
 def notEnumW : List String := PositionsTypes.notEnum ++ whoClasses
 
+/-- The extra condition on the statement an `augment-not-found` error names (`WhoP`), as a parameter
+of the whole file (none of the layers treated here builds that class). -/
+class APred where
+  P : Stmt → Prop
+
 section
-variable {reg : Registry}
+variable {reg : Registry} [APred]
 
 /-- Any statement may carry an error of a class that `NamesW` does not constrain. -/
-theorem names_free {cls : String} (s : Stmt) (h : cls ∉ constrainedW) : NamesW reg cls s :=
+theorem names_free {cls : String} (s : Stmt) (h : cls ∉ constrainedW) : NamesWP APred.P reg cls s :=
   ⟨PositionsTypes.names_free s (fun hc => h (List.mem_append_left _ hc)),
-   who_free reg s (fun hc => h (List.mem_append_right _ hc))⟩
+   who_freeP APred.P reg s (fun hc => h (List.mem_append_right _ hc))⟩
 
-theorem names_type {cls : String} {s : Stmt} (hs : s.kw = "type") (h : cls ∉ notTypeW) : NamesW reg cls s :=
+theorem names_type {cls : String} {s : Stmt} (hs : s.kw = "type") (h : cls ∉ notTypeW) : NamesWP APred.P reg cls s :=
   ⟨PositionsTypes.names_type hs (fun hc => h (List.mem_append_left _ hc)),
-   who_free reg s (fun hc => h (List.mem_append_right _ hc))⟩
+   who_freeP APred.P reg s (fun hc => h (List.mem_append_right _ hc))⟩
 
 theorem names_enum {cls : String} {s : Stmt} (hs : s.kw = "enum" ∨ s.kw = "bit") (h : cls ∉ notEnumW) :
-    NamesW reg cls s :=
+    NamesWP APred.P reg cls s :=
   ⟨PositionsTypes.names_enum hs (fun hc => h (List.mem_append_left _ hc)),
-   who_free reg s (fun hc => h (List.mem_append_right _ hc))⟩
+   who_freeP APred.P reg s (fun hc => h (List.mem_append_right _ hc))⟩
 
-abbrev Good (reg : Registry) (e : Err) : Prop := PosAt (NamesW reg) reg e
-abbrev GoodL (reg : Registry) (l : List Err) : Prop := ErrsOK (NamesW reg) reg l
+abbrev Good (reg : Registry) (e : Err) : Prop := PosAt (NamesWP APred.P reg) reg e
+abbrev GoodL (reg : Registry) (l : List Err) : Prop := ErrsOK (NamesWP APred.P reg) reg l
 
 theorem good_bare (cls : String) : Good reg (Err.bare cls) := posOK_bare reg cls
 
@@ -160,7 +165,7 @@ theorem stepRange_good {t : Stmt} (ht : StmtOf reg t) (dec : Bool) (s : St) (hs 
       exact ⟨⟨fun e => absurd e (by decide), fun e => absurd e (by decide), fun e => absurd e (by decide),
         fun e => absurd e (by decide), fun e => absurd e (by decide), fun e => absurd e (by decide),
         fun e => absurd e (by decide), fun _ => hk, fun e => absurd e (by decide), fun e => absurd e (by decide),
-        fun e => absurd e (by decide)⟩, who_free reg _ (by decide)⟩
+        fun e => absurd e (by decide)⟩, who_freeP APred.P reg _ (by decide)⟩
 
 theorem stepLength_good {t : Stmt} (ht : StmtOf reg t) (s : St) (hs : GoodL reg s.2) :
     GoodL reg (stepLength t s).2 := by
@@ -175,12 +180,12 @@ theorem stepLength_good {t : Stmt} (ht : StmtOf reg t) (s : St) (hs : GoodL reg 
       exact ⟨⟨fun e => absurd e (by decide), fun e => absurd e (by decide), fun e => absurd e (by decide),
         fun e => absurd e (by decide), fun e => absurd e (by decide), fun e => absurd e (by decide),
         fun e => absurd e (by decide), fun e => absurd e (by decide), fun e => absurd e (by decide), fun _ => hk,
-        fun e => absurd e (by decide)⟩, who_free reg _ (by decide)⟩
+        fun e => absurd e (by decide)⟩, who_freeP APred.P reg _ (by decide)⟩
     · refine goodL_snoc hs (posOK_at (stmtOf_one ht hl) _ ?_)
       exact ⟨⟨fun e => absurd e (by decide), fun e => absurd e (by decide), fun e => absurd e (by decide),
         fun e => absurd e (by decide), fun e => absurd e (by decide), fun e => absurd e (by decide),
         fun e => absurd e (by decide), fun e => absurd e (by decide), fun _ => hk, fun e => absurd e (by decide),
-        fun e => absurd e (by decide)⟩, who_free reg _ (by decide)⟩
+        fun e => absurd e (by decide)⟩, who_freeP APred.P reg _ (by decide)⟩
 
 theorem enumErrClass_notEnumW (x : Enum.EnumErr) : enumErrClass x ∉ notEnumW := by
   cases x <;> simp only [enumErrClass] <;> decide
@@ -449,7 +454,7 @@ theorem resolveIdentities_good (o : Identity.Oracle) (lk : Identity.Link) (vals0
 /-! ### the plug of the pipeline -/
 
 /-- The layers plugged in by `plugFull` keep the discipline (finer form). -/
-theorem plugFull_positionsW (reg : Registry) : PlugPositionsAt (NamesW reg) reg (plugFull reg) := by
+theorem plugFull_positionsA (reg : Registry) : PlugPositionsAt (NamesWP APred.P reg) reg (plugFull reg) := by
   refine ⟨?_, ?_, ?_⟩
   · intro root scope t hroot ht hkw hscope e he
     simp only [plugFull, resolveTypeE, List.mem_map] at he
@@ -478,5 +483,23 @@ theorem plugFull_positionsW (reg : Registry) : PlugPositionsAt (NamesW reg) reg 
     exact normTypeErr_good (resolveAllTypedefsE_good (Types.Env.of reg) e' he')
 
 end
+
+/-- For every extra condition `P` on the statement named by `augment-not-found`. -/
+theorem plugFull_positionsWP (P : Stmt → Prop) (reg : Registry) :
+    PlugPositionsAt (NamesWP P reg) reg (plugFull reg) :=
+  @plugFull_positionsA ⟨P⟩ reg
+
+theorem posAt_mono {K K' : String → Stmt → Prop} {reg : Registry} {e : Err} (hm : ∀ cls s, K cls s → K' cls s)
+    (h : PosAt K reg e) : PosAt K' reg e := by
+  intro hp
+  obtain ⟨s, h1, h2, h3⟩ := h hp
+  exact ⟨s, h1, h2, hm _ _ h3⟩
+
+/-- The form without extra condition. -/
+theorem plugFull_positionsW (reg : Registry) : PlugPositionsAt (NamesW reg) reg (plugFull reg) := by
+  have h := plugFull_positionsWP (fun _ => True) reg
+  exact ⟨fun root scope t h1 h2 h3 h4 e he => posAt_mono (fun _ _ => NamesWP.toW) (h.resolve root scope t h1 h2 h3 h4 e he),
+    fun e he => posAt_mono (fun _ _ => NamesWP.toW) (h.identity e he),
+    fun e he => posAt_mono (fun _ _ => NamesWP.toW) (h.typedefs e he)⟩
 
 end Goyang.Lemmas.PositionsTypesWho
